@@ -362,7 +362,9 @@ fn chain_case(n: usize, shape: usize) -> TreeCase {
 /// fj..fm begin with a line that delivers no token (comment only; under \endlinechar=-1 also a line of
 /// an ignored character and an empty line): a \read of such a line is an empty token list, and the
 /// line end must still be reported to \read (seeded regression C19-e)
-const STREAM_FILES: [(&str, &str); 13] = [
+/// fn..fq have the unmatched `}` on their last line (seeded regression C19-h): the rest of the line is
+/// dropped (§486) and the stream is afterwards as after any other last line
+const STREAM_FILES: [(&str, &str); 17] = [
     ("fa", ""),
     ("fb", "a"),
     ("fc", "a\n"),
@@ -375,9 +377,13 @@ const STREAM_FILES: [(&str, &str); 13] = [
     ("fk", "%c\n%d\na"),
     ("fl", "\u{0}\na"),
     ("fm", "\na"),
+    ("fn", "a}b"),
+    ("fo", "a}b\n"),
+    ("fp", "x\na}b"),
+    ("fq", "}"),
     ("fh", "{a"),
 ];
-const XS_FILES: usize = 12;
+const XS_FILES: usize = 16;
 const TERMINAL: [&str; 14] = ["p", "q{", "r}", "s", "t}u", "v", "w", "p", "q{", "r}", "s", "t}u", "v", "w"];
 
 #[derive(Clone, Copy, Debug, PartialEq)]
